@@ -488,6 +488,11 @@ func (x *MessageCertificateResults) Check() lib.ErrorI {
 	if x.Qc.Block != nil {
 		return lib.ErrNilBlock()
 	}
+	// only the certificate that finalizes a block (+2/3 PRECOMMIT_VOTE) certifies its results: an ELECTION_VOTE aggregate
+	// doesn't even sign the results hash, and a PROPOSE_VOTE certificate may never have been finalized
+	if x.Qc.Header.Phase != lib.Phase_PRECOMMIT_VOTE {
+		return lib.ErrWrongPhase()
+	}
 	if err := checkChainId(x.Qc.Header.ChainId); err != nil {
 		return err
 	}
